@@ -79,6 +79,13 @@ def finalizePruned (jt : JetTypes) (leak : Bool) (p : Plan) (program : Bool) (ca
 
 /-! ### well-formed plans: what the plan parser and the library's constructors guarantee -/
 
+/-- the shape conditions on a single node: a `disconnect` has its right child, a word node has
+`2^n` bits -/
+def shapeOK : Node → Bool
+  | .disconnect _ none => false
+  | .word n bits => bits.length == 2 ^ n
+  | _ => true
+
 /-- children are earlier nodes; no wire-only node (`hidden`, a `disconnect` without right child);
 a word node has `2^n` bits -/
 def nodeOK (i : Nat) (nd : Node) : Bool :=
